@@ -24,16 +24,16 @@ import (
 type kind uint8
 
 const (
-	kUnknown  kind = iota
-	kBool          // n: 0/1
-	kNil           // n: 0 nil, 1 non-nil
-	kSign          // n: -1,0,1
-	kConst         // n: exact integer
-	kRecv          // the component instance
-	kFieldAddr     // n: field index of the receiver
-	kObj           // n: field index; opaque object held in that field
-	kSink          // n: role
-	kTok           // n: token id (component specific, e.g. the ring's current slot)
+	kUnknown   kind = iota
+	kBool           // n: 0/1
+	kNil            // n: 0 nil, 1 non-nil
+	kSign           // n: -1,0,1
+	kConst          // n: exact integer
+	kRecv           // the component instance
+	kFieldAddr      // n: field index of the receiver
+	kObj            // n: field index; opaque object held in that field
+	kSink           // n: role
+	kTok            // n: token id (component specific, e.g. the ring's current slot)
 	kTuple
 	kAlloc // n: index of a local cell
 )
@@ -98,8 +98,8 @@ type frame struct {
 
 type tsState struct {
 	fields  map[int]val
-	sinks   []int8 // 0 closed, 1 open
-	present []int8 // sink value present (non-nil) 1 / absent 0
+	sinks   []int8          // 0 closed, 1 open
+	present []int8          // sink value present (non-nil) 1 / absent 0
 	pers    map[string]int8 // persistent ghosts (part of the quiescent state)
 	ghosts  map[string]int8 // per entry call ghosts
 	dec     map[string]int8 // decisions taken in this entry call (label -> outcome)
@@ -247,8 +247,9 @@ type Component struct {
 	// OnEntry initialises per-call ghosts.
 	OnEntry func(s *tsState, e *Entry)
 	// OnExit checks component assertions at the end of an entry call.
-	OnExit func(a *tsRun, s *tsState, e *Entry)
+	OnExit   func(a *tsRun, s *tsState, e *Entry)
 	InitPers map[string]int8
+	Counter  map[int]bool // resettable counters (see resolveTracking)
 	// BindParams gives abstract values (provenance tokens) to the parameters of an entry call.
 	BindParams func(s *tsState, fr *frame, e *Entry)
 	// OnDecision is told about every labelled branch decision.
@@ -258,19 +259,19 @@ type Component struct {
 }
 
 type tsRun struct {
-	C        *Component
-	seen     map[string]bool
-	exits    []*tsState
-	Viol     map[string]*Violation
-	Steps    int
-	Events   map[string]*Event
-	curTrace string
-	curEntry *Entry
-	Reach    map[string]*tsState
-	parent   map[string]string
-	how      map[string]string
+	C         *Component
+	seen      map[string]bool
+	exits     []*tsState
+	Viol      map[string]*Violation
+	Steps     int
+	Events    map[string]*Event
+	curTrace  string
+	curEntry  *Entry
+	Reach     map[string]*tsState
+	parent    map[string]string
+	how       map[string]string
 	Undecided map[string]string // G3 reasons
-	maxDepth int
+	maxDepth  int
 }
 
 func (c *Component) fieldName(i int) string { return c.St.Field(i).Name() }
@@ -284,6 +285,8 @@ func (c *Component) resolveTracking() {
 	nonConstStore := map[int]bool{}
 	constStores := map[int]map[int64]bool{}
 	nilCmp := map[int]bool{}
+	incStore := map[int]bool{}
+	c.Counter = map[int]bool{}
 	addConst := func(fi int, v ssa.Value) {
 		if cv, ok := v.(*ssa.Const); ok && cv.Value != nil && cv.Value.Kind() == constant.Int {
 			n, _ := constant.Int64Val(cv.Value)
@@ -324,6 +327,9 @@ func (c *Component) resolveTracking() {
 				case *ssa.Store:
 					if fa, ok := in.Addr.(*ssa.FieldAddr); ok && isPtrTo(fa.X.Type(), c.T) {
 						addConst(fa.Field, in.Val)
+						if c.isIncrement(in, fa.Field) {
+							incStore[fa.Field] = true
+						}
 					}
 				case ssa.CallInstruction:
 					cc := in.Common()
@@ -384,6 +390,11 @@ func (c *Component) resolveTracking() {
 			c.ObjField[i] = true
 		case *types.Struct:
 			c.ObjField[i] = true
+		}
+		// a resettable counter: an untracked integer that is incremented somewhere and zeroed somewhere.
+		// Its zero / maybe-non-zero status is kept as the persistent ghost "nz:<field>".
+		if c.Tracked[i] == tNone && incStore[i] && constStores[i][0] {
+			c.Counter[i] = true
 		}
 	}
 }
@@ -742,6 +753,13 @@ func (a *tsRun) run(s *tsState) {
 					a.record(s, "store", -1, fi, a.storeArg(f, in), in)
 					if v.k == kRecv {
 						a.undecided(in, "receiver stored into its own field")
+					}
+					if c.Counter[fi] {
+						if v.k == kConst && v.n == 0 {
+							s.pers["nz:"+c.fieldName(fi)] = 0
+						} else {
+							s.pers["nz:"+c.fieldName(fi)] = 1
+						}
 					}
 					if v.k == kTok && v.tag != "" {
 						s.fields[fi] = v
@@ -1450,6 +1468,8 @@ func (a *tsRun) sinkEvent(s *tsState, f *frame, in *ssa.Call, role int, m string
 			if i == 0 {
 				n.sinks[role] = 1
 				n.ghosts["opened:"+rn] = 1
+			} else {
+				n.ghosts["startfail:"+rn] = 1
 			}
 		})
 		return true
@@ -1477,6 +1497,9 @@ func (a *tsRun) initialStates() []*tsState {
 		s := &tsState{fields: map[int]val{}, pers: map[string]int8{}, ghosts: map[string]int8{}, dec: map[string]int8{}}
 		for k, v := range c.InitPers {
 			s.pers[k] = v
+		}
+		for fi := range c.Counter {
+			s.pers["nz:"+c.fieldName(fi)] = 0
 		}
 		s.sinks = make([]int8, nroles)
 		s.present = make([]int8, nroles)
